@@ -231,6 +231,22 @@ def break_di_search(ctx, shim, r, nfonts, per_font, pc, pt):
                        classify=F.di_known_class)
 
 
+def break_gposdev_search(ctx, shim, r, nfonts, per_font, pc, pt):
+    import _gposflag as GF
+    groups = GF.gposdev_groups(r, nfonts)
+    probe = [GF.make_gposdev_shaping(r, g, 0) for g in groups for _ in range(2)]
+    ctx.cov.setdefault("gposdev_liveness", {})["break-safety-gposdev"] = {
+        "requests_probed": len(probe), "changed_by_ppem_or_var": GF.liveness(shim, probe),
+        "fonts_with_device_only_records": sum(1 for g in groups if g["facts"]["device_only_records"]),
+        "profiles": {p: sum(1 for g in groups if g["profile"] == p) for p in sorted({g["profile"] for g in groups})}}
+    metamorphic_search(ctx, shim, r, per_font, pc, pt, False, "break-safety-gposdev", F.verify_break, [0, 0, pc, pc | pt],
+                       "breaking at unflagged cluster starts changes the result",
+                       GF.GPOSDEV_RULE + "then as break-safety-ot: cut at ALL unflagged cluster starts, re-shape the pieces with the "
+                       "same ppem / variation coordinates, concatenate, compare",
+                       groups=groups, make=lambda r, g, fl, k: GF.make_gposdev_shaping(r, g, fl),
+                       classify=GF.gposdev_known_class)
+
+
 def gsub_flag_groups(ctx, shim, r, nfonts, per_font):
     """request groups of the `gsub` command (the GSUB interpreter of the crate through its hook vs the Lean model Gsub.lean,
     which contains every unsafe_to_break / unsafe_to_concat call site of the interpreter and delete_glyph / merge_clusters of
@@ -322,6 +338,11 @@ def run(ctx):
         "one are attributed to the finding classes deleted-flag-carrier / nested-delete-drift from the recipe alone "
         "(over-approximation: a new defect that shows only in such fonts would be reported under that class); 6 fonts in 10 "
         "are outside both classes",
+        "GPOS value records and PairPos: apply_to_pos with its `worked` return value and PairAdjustment::apply's flag decision are "
+        "modelled (Gpos.lean valueApplyToPosD, GposFlag.lean pairPosApply; device / variation deltas are parameters) and tied to "
+        "the crate by gpos-value-worked / gpos-pair-flags (hooks gpos::pair_records_apply_to_pos, gpos::apply_subtable_flags) and "
+        "the regenerated probe table behind C03_gen_value_worked; SinglePos needs no flag (one glyph); MarkBasePos, CursivePos and "
+        "the kern / kerx machines are not modelled here (C07 models their arithmetic); through shape(): break-safety-gposdev",
         "that every shaping step which makes two clusters interdependent calls unsafe_to_break over a span covering what it "
         "inspected (the ~40 call sites) is not proved; it is searched by the break-safety verifier through shape() "
         "(partial, as DESIGN.md §5 C03 says); OpenType and AAT fonts are separate streams",
@@ -344,9 +365,15 @@ def run(ctx):
                    classify=C06mod.gsub_classify, canon=F.canon_panic, only=lambda ln: ln.startswith("gsub "))
     ctx.correspond("stch-prims", groups=F.stch_prim_groups(ctx.rng("stch-prims"), ctx.budget(40, 400), ctx.budget(100, 500)),
                    classify=F.classify_stch, canon=F.canon_panic, only=lambda ln: ln.startswith("stch "))
+    import _gposflag as GF
+    rg = ctx.rng("gpos-flags")
+    ctx.correspond("gpos-value-worked", lines=GF.val_lines(rg, ctx.budget(3000, 100000)), classify=GF.classify_val, canon=GF.canon)
+    ctx.correspond("gpos-pair-flags", lines=GF.pair_lines(rg, ctx.budget(4000, 150000), pc), classify=GF.classify_pair, canon=GF.canon)
+    GF.hook_search(ctx, shim, ctx.rng("gpos-flags-search"), ctx.budget(4000, 150000), pc)
     interior_search(ctx, shim, ctx.rng("interior"), ctx.budget(20000, 300000))
     carry_search(ctx, shim, ctx.rng("carry-exact"), ctx.budget(10000, 200000), pc, pt)
     break_synth_search(ctx, shim, ctx.rng("break-synth"), ctx.budget(200, 4000), 12, pc, pt)
+    break_gposdev_search(ctx, shim, ctx.rng("break-gposdev"), ctx.budget(160, 3000), 12, pc, pt)
     break_fraction_search(ctx, shim, ctx.rng("break-fraction"), ctx.budget(20, 300), ctx.budget(20, 60), pc, pt)
     break_di_search(ctx, shim, ctx.rng("break-di"), ctx.budget(150, 3000), 16, pc, pt)
     break_stch_search(ctx, shim, ctx.rng("break-stch"), ctx.budget(100, 2000), 12, pc, pt)
@@ -368,6 +395,12 @@ def replay(ctx, rp):
     if rp.get("stream") == "carry-exact":
         o = vlib.run_lines(shim, [rp["request"]], nproc=1)[0]
         d = F.carry_eval(rp["request"], o)[0]
+        print("request:", rp["request"]); print("reply  :", o[-1500:]); print("deviation:", d)
+        return 1 if d else 0
+    if rp.get("stream") in ("value-worked", "pair-flagged"):
+        import _gposflag as GF
+        o = vlib.run_lines(shim, [rp["request"]], nproc=1)[0]
+        d = (GF.val_eval if rp["stream"] == "value-worked" else GF.pair_eval)(rp["request"], o)[0]
         print("request:", rp["request"]); print("reply  :", o[-1500:]); print("deviation:", d)
         return 1 if d else 0
     if rp.get("stream") == "interior-exact":
